@@ -131,6 +131,18 @@ def orient(c, left):
     return None
 
 
+def aug_rhs(s):
+    """For an assignment `t = t op e` (written `t op= e` or spelled out; operands of + and * in any order) -> e; None otherwise."""
+    if s.k != 'assign' or s.value[0] != 'bin':
+        return None
+    v = s.value
+    if v[2] == s.target:
+        return v[3]
+    if v[1] in ('+', '*') and v[3] == s.target:
+        return v[2]
+    return None
+
+
 def walk_stmts(stmts):
     """Yield every statement, depth first, in source order."""
     for s in stmts:
